@@ -13,11 +13,12 @@ def B(*xs):
 # one key of every type; kt carries a time to live
 PRE = [B('SET', 'ks', '10'), B('SET', 'kt', 'text', 'EX', '1000'), B('RPUSH', 'kl', 'a', 'b', 'c', 'b'), B('SADD', 'kS', 'a', 'b', 'c'),
        B('SADD', 'kS2', 'b', 'c', 'd'), B('HSET', 'kh', 'f', '1', 'g', 'x'), B('ZADD', 'kz', '1', 'a', '2', 'b', '3', 'c'),
+       B('ZADD', 'kzi', 'inf', 'p', '-inf', 'm', '0', 'z'),
        B('XADD', 'kx', '1-1', 'f', 'v'), B('XADD', 'kx', '2-0', 'g', 'w'),
        # a consumer group on kx positioned at the start, 1-1 delivered to (and pending for) consumer c1
        B('XGROUP', 'CREATE', 'kx', 'grp', '0-0'), B('XREADGROUP', 'GROUP', 'grp', 'c1', 'COUNT', '1', 'STREAMS', 'kx', '>')]
 
-PRE_KEYS = [b'ks', b'kt', b'kl', b'kS', b'kS2', b'kh', b'kz', b'kx']
+PRE_KEYS = [b'ks', b'kt', b'kl', b'kS', b'kS2', b'kh', b'kz', b'kzi', b'kx']
 
 FORMS = [B(*f) for f in [
     # strings
@@ -128,6 +129,17 @@ FORMS = [B(*f) for f in [
     ('XGROUP', 'SETID', 'kx', 'grp', '$'), ('XGROUP', 'SETID', 'kx', 'grp', '0-0'), ('XGROUP', 'SETID', 'kx', 'nogroup', '$'), ('XGROUP', 'DELCONSUMER', 'kx', 'grp', 'c1'),
     ('XGROUP', 'DELCONSUMER', 'kx', 'grp', 'c9'), ('XGROUP', 'CREATECONSUMER', 'kx', 'grp', 'c2'), ('XGROUP', 'CREATECONSUMER', 'kx', 'grp', 'c1'), ('XGROUP', 'BOGUS', 'kx', 'grp'),
     ('XGROUP',), ('XDEL', 'kx', '1-1'), ('XADD', 'kx', '7-7', 'h', 'x'),
+    # counts of exactly one (an array, where the form without a count answers a bulk string), popping a set / sorted set empty
+    ('SPOP', 'kS', '1'), ('SRANDMEMBER', 'kS', '1'), ('SRANDMEMBER', 'kS', '-1'), ('SPOP', 'kS', '3'), ('ZPOPMIN', 'kz', '1'), ('ZPOPMAX', 'kz', '1'), ('SRANDMEMBER', 'nokey', '1'),
+    ('SPOP', 'nokey', '1'),
+    # infinite scores: sums that are not a number are refused on every path, sums that stay infinite are not
+    ('ZINCRBY', 'kzi', '-inf', 'p'), ('ZINCRBY', 'kzi', 'inf', 'm'), ('ZINCRBY', 'kzi', 'inf', 'p'), ('ZINCRBY', 'kzi', '-inf', 'm'), ('ZINCRBY', 'kzi', 'inf', 'z'),
+    ('ZINCRBY', 'kzi', '5', 'p'), ('ZADD', 'kzi', '-inf', 'p'), ('ZRANGEBYSCORE', 'kzi', '-inf', '+inf', 'WITHSCORES'), ('ZCOUNT', 'kzi', '-inf', '+inf'), ('ZREM', 'kzi', 'p'),
+    # trailing arguments of range reads
+    ('XRANGE', 'kx', '-', '+', 'COUNT'), ('XRANGE', 'kx', '-', '+', 'JUNK', '1'), ('XREVRANGE', 'kx', '+', '-', 'COUNT'), ('XRANGE', 'kx', '-', '+', 'COUNT', 'x'),
+    # blocking pops: answered at once when a list has something, nil at once inside EXEC, refused in scripts, nil after the time-out directly
+    ('BLPOP', 'kl', '0.01'), ('BRPOP', 'kl', '0.02'), ('BLPOP', 'nokey', 'kl', '0.01'), ('BRPOP', 'nokey', 'new', 'kl', '0.01'), ('BLPOP', 'nokey', '0.01'), ('BRPOP', 'nokey', 'new', '0.01'),
+    ('BLPOP', 'ks', '0.01'), ('BLPOP', 'nokey', 'ks', '0.01'), ('BLPOP', 'kl', '-1'), ('BLPOP', 'kl', 'x'), ('BLPOP', 'kl'),
 ]]
 
 # commands only the script executor implements (spec/Extras.tla): run through the script paths (and directly, where the
